@@ -1,4 +1,5 @@
 """C09 ZBDD set-family operations: wiring"""
+import ereduce
 import eunits
 import ewrap
 import kinds
@@ -16,4 +17,6 @@ def run(ctx):
     ctx.explain("E-UNITS: no variable number meets a level number (both are u32) in the rules crate(s).")
     nfn, _ = eunits.run(ctx, F, crates=("oxidd_rules_zbdd",))
     ctx.floor("E-UNITS", "function bodies analysed", nfn, 100)
+    n = ereduce.run(ctx, F, kinds=("zbdd",))
+    ctx.floor("E-TABLE.reduce", "abstract situations of the ZBDD reduce functions", n, 40)
     ctx.not_decided = "the level-comparison recursion, consistency after add_vars"
